@@ -86,8 +86,7 @@ func defaultConfig() ref.Config {
 func newWorld(cfg ref.Config, ch *env.Chooser, clock *env.Clock) *World {
 	w := &World{BMC: ref.NewBMC(cfg), Clock: clock}
 	w.T = &env.Transport{BMC: w.BMC, Ch: ch, Clock: clock, Timeout: time.Second}
-	root := context.WithValue(context.Background(), env.RootKey, true)
-	w.Ctx, w.Cancel = context.WithCancel(root)
+	w.Ctx, w.Cancel = newCtx()
 	if clock != nil {
 		clock.Cancel = w.Cancel
 	}
@@ -184,4 +183,11 @@ func harnessPanic(stack string) bool {
 		return strings.HasPrefix(l, "verif/")
 	}
 	return false
+}
+
+// newCtx returns a harness-owned caller context (marked so the transport can
+// tell whether the per-attempt context it is handed descends from it).
+func newCtx() (context.Context, context.CancelFunc) {
+	root := context.WithValue(context.Background(), env.RootKey, true)
+	return context.WithCancel(root)
 }
